@@ -258,9 +258,9 @@ class Unphase(_Worlds, ScratchMixin, SubCheck):
                 if tier == "quick":
                     tagopts = (3,)
                 elif p == 4 and q == 4:
-                    tagopts = (0,)  # ~150 GT paths per call: keep the largest pair free of tag bits
+                    continue  # ~25k GT paths alone; (4,x) and (x,4) pairs cover tetraploid calls next to every other ploidy
                 elif 4 in (p, q):
-                    tagopts = (0, 3)
+                    tagopts = (0,)
                 else:
                     tagopts = (0, 1, 2, 3)
                 for t in tagopts:
